@@ -335,6 +335,23 @@ def r8_body_once_and_forms(ctx):
         ctx.ob("R17.8", "header-lines:empty-strings-are-dropped", n_empty >= 1, "", "%d emptiness tests on header lines between the parser and the rebuilder" % n_empty if n_empty else
                "neither parse_http_request nor build_forward_request drops empty lines any more: the two empty strings left by splitting the CRLFCRLF terminator are emitted as header lines, the header block ends early "
                "and four stray bytes precede the body")
+    # (d) what is stored from the request line and the header lines is what was received: no case folding on the way into
+    # ParsedRequest (methods and header values are case-sensitive; case-insensitive *comparisons* are made on copies)
+    if p is not None:
+        o_p = ctx.origins(p)
+        folded = []
+        for bi in sorted(p.reachable()):
+            for st in p.blocks[bi]["stmts"]:
+                if st["s"] == "assign" and st["rv"]["r"] == "aggregate" and "ParsedRequest" in str(st["rv"]["kind"].get("adt", "")):
+                    for op in st["rv"]["ops"]:
+                        t = o_p.of_operand(op)
+                        ts = [t] + [o_p.init_of(s_[2]) for s_ in subterms(t) if isinstance(s_, tuple) and s_ and s_[0] == "var" and len(s_) > 2]
+                        for t_ in ts:
+                            for s_ in subterms(t_):
+                                if isinstance(s_, tuple) and s_ and s_[0] == "call" and s_[1].split("::")[-1] in ("to_ascii_uppercase", "to_uppercase", "to_ascii_lowercase", "to_lowercase", "make_ascii_uppercase", "make_ascii_lowercase"):
+                                    folded.append(s_)
+        ctx.ob("R17.8", "parse_http_request:stores-tokens-as-received", not folded, "", "method, target, version and header lines are stored without case folding" if not folded else
+               "parse_http_request folds the case of a token it stores (`%s`): the forwarded request line is rebuilt from the stored token, so `purge` reaches the origin as `PURGE` — a different method" % folded[0][1].split("::")[-1])
     d = ctx.body("R17.8", HP + "determine_target")
     if d is not None:
         cfg, conds, o = ctx.cfg(d), ctx.conds(d), ctx.origins(d)
